@@ -62,7 +62,9 @@ func unaryTotalCalls() []totCall {
 		{"Decimal.Neg", func(d dec.Decimal) string { return bstr(d.Neg()) }, never, false},
 		{"Decimal.Canonical", func(d dec.Decimal) string { return bstr(d.Canonical()) }, never, false},
 		{"Decimal.IsNaN", func(d dec.Decimal) string { return fmt.Sprint(d.IsNaN()) }, never, false},
-		{"Decimal.IsInf", func(d dec.Decimal) string { return fmt.Sprint(d.IsInf(0), d.IsInf(1), d.IsInf(-1), d.IsInf(math.MinInt), d.IsInf(math.MaxInt)) }, never, false},
+		{"Decimal.IsInf", func(d dec.Decimal) string {
+			return fmt.Sprint(d.IsInf(0), d.IsInf(1), d.IsInf(-1), d.IsInf(math.MinInt), d.IsInf(math.MaxInt))
+		}, never, false},
 		{"Decimal.IsZero", func(d dec.Decimal) string { return fmt.Sprint(d.IsZero()) }, never, false},
 		{"Decimal.Signbit", func(d dec.Decimal) string { return fmt.Sprint(d.Signbit()) }, never, false},
 		{"Decimal.Sign", func(d dec.Decimal) string { return fmt.Sprint(d.Sign()) }, onNaN, false},
@@ -127,7 +129,10 @@ func unaryTotalCalls() []totCall {
 			if p == math.MaxInt && (verb == 'e' || verb == 'E' || verb == 'f') {
 				continue // documented meaning would require an unbounded output; see DESIGN (not claimed)
 			}
-			cs = append(cs, totCall{"Format", func(d dec.Decimal) string { s := dec.Format(d, verb, p); return fmt.Sprint(len(s), s[:minInt(len(s), 40)]) }, never, heavy},
+			cs = append(cs, totCall{"Format", func(d dec.Decimal) string {
+				s := dec.Format(d, verb, p)
+				return fmt.Sprint(len(s), s[:minInt(len(s), 40)])
+			}, never, heavy},
 				totCall{"Append", func(d dec.Decimal) string {
 					s := dec.Append([]byte("zz"), d, verb, p)
 					return fmt.Sprint(len(s), string(s[:minInt(len(s), 40)]))
@@ -640,7 +645,13 @@ func c20Totality(r *eng.Run) {
 				}
 				w.Eval()
 			}
-			if p, msg := guard(func() { dec.Inf(e); dec.FromInt64(int64(e)); dec.FromInt32(int32(e)); dec.FromUint64(uint64(e)); dec.FromUint32(uint32(e)) }); p {
+			if p, msg := guard(func() {
+				dec.Inf(e)
+				dec.FromInt64(int64(e))
+				dec.FromInt32(int32(e))
+				dec.FromUint64(uint64(e))
+				dec.FromUint32(uint32(e))
+			}); p {
 				w.R.Fail(eng.Case{Op: "total:Inf/FromInt64", Args: []string{fmt.Sprint(e)}, Got: "panic: " + msg, Want: "no panic"})
 			}
 		}
